@@ -29,6 +29,11 @@
 (*   * text nodes are non-empty and never adjacent; no NUL, no CR, no surrogate                   *)
 (*   * attributes from a white list per element; boolean attributes only with the canonical       *)
 (*     values "" or the attribute's name                                                          *)
+(* \* ASSUMED (cannot be settled offline, no verdict depends on them unless the round trip of   *)
+(* such a tree fails, which it does not on the unchanged code): annotation-xml directly below   *)
+(* math (MathML's own schema puts it inside semantics; the HTML parser does not care), svg a /  *)
+(* g / title / desc / foreignObject as the only SVG children, link rel=stylesheet and meta       *)
+(* itemprop as body content.                                                                      *)
 (* Relaxed on purpose (stated, harmless for the round trip): title is not required (the          *)
 (* standard allows that when a higher-level protocol supplies it); URL / keyword / number          *)
 (* attribute value syntax is not checked; id may be any text.                                     *)
